@@ -44,6 +44,10 @@ func (w *World) check(prop, rule, construct string, p token.Pos, ok bool, detail
 }
 
 func (w *World) undecided(prop, rule, construct string, p token.Pos, detail string) *Obligation {
+	if i := strings.Index(detail, "DECIDED-VIOLATED: "); i >= 0 {
+		// a sub-analysis that normally only extracts facts found a definite deviation
+		return w.ob(prop, rule, construct, p, Violated, detail[:i]+detail[i+len("DECIDED-VIOLATED: "):])
+	}
 	return w.ob(prop, rule, construct, p, Undecided, detail)
 }
 
@@ -253,11 +257,18 @@ func (w *World) finish(prop string, verifDir string, seed int, wall float64, ext
 // include evaluates the rules of another property and adopts the obligations of the selected rules under
 // property P (same rule ids): rules that are necessary conditions of several properties are decided once
 // and reported under each.
+var includeDepth int
+
 func (w *World) include(P, from string, rules ...string) {
 	sel := map[string]bool{}
 	for _, r := range rules {
 		sel[r] = true
 	}
+	if includeDepth > 0 {
+		return // an included rule set does not pull in its own inclusions (they are filtered out anyway)
+	}
+	includeDepth++
+	defer func() { includeDepth-- }()
 	before := len(w.Obs)
 	oldFloors := map[string]int{}
 	for k, v := range w.floors {
